@@ -29,6 +29,7 @@ def run(d):
         m["property"]=prim; m["intended_property"]=ip
         m["expect"]=caught.get(prim,[])
         m["also_properties"]=[p for p in sorted(caught) if p!=prim]
+        m.setdefault("caught_at_intake", m.get("caught_by",""))
         m["caught_by"]=" ".join(f"{p}[{','.join(r)}]" for p,r in sorted(caught.items())) or "NOTHING"
         m["kind"]="breaking" if caught else "missed"
         json.dump(m,open(mp,"w"),indent=1)
